@@ -25,6 +25,9 @@ deriving DecidableEq, Repr
   | .u8 => 255 | .u16 => 65535 | .u32 => 4294967295 | .u64 => 18446744073709551615
 @[simp] def ITy.modulus : ITy → Int
   | .i8 | .u8 => 256 | .i16 | .u16 => 65536 | .i32 | .u32 => 4294967296 | .i64 | .u64 => 18446744073709551616
+/-- the weight of the top (sign) bit: half the modulus -/
+@[simp] def ITy.half : ITy → Int
+  | .i8 | .u8 => 128 | .i16 | .u16 => 32768 | .i32 | .u32 => 2147483648 | .i64 | .u64 => 9223372036854775808
 def ITy.inRange (t : ITy) (v : Int) : Prop := t.lo ≤ v ∧ v ≤ t.hi
 instance (t : ITy) (v : Int) : Decidable (t.inRange v) := by unfold ITy.inRange; infer_instance
 /-- two's-complement wrap-around into the range of `t` -/
@@ -79,6 +82,8 @@ inductive Expr
   | neg (t : ITy) (a : Expr)
   | wadd (t : ITy) (a b : Expr) | wsub (t : ITy) (a b : Expr) | wmul (t : ITy) (a b : Expr)  -- wrapping_*
   | shl (t : ITy) (a : Expr) (k : Nat) | shr (t : ITy) (a : Expr) (k : Nat)
+  | xorTop (t : ITy) (a : Expr)               -- `a ^ (1 << (bits-1))` (or `^ MIN` for signed `t`): the sign-bit flip
+  | andLow (t : ITy) (a : Expr) (k : Nat)     -- `a & (2^k - 1)` for an unsigned `a`
   | ite (c : Cmp) (a b : Expr) (t e : Expr)   -- `if a <c> b { t } else { e }`
   | newUnchecked (f : Fmt) (e : Expr)         -- `I24::new_unchecked(e)`: value unchanged, range obligation
   | call (f : Expr) (arg : Expr)              -- call of a sibling conversion function
@@ -97,6 +102,8 @@ def val (s : Int) : Expr → Int
   | .wmul t a b => t.wrap (val s a * val s b)
   | .shl t a k => t.wrap (val s a * 2 ^ k)
   | .shr _ a k => val s a / 2 ^ k
+  | .xorTop t a => t.wrap (val s a + t.half)      -- flipping the top bit = adding 2^(bits-1) modulo 2^bits
+  | .andLow _ a k => val s a % 2 ^ k              -- (the translator emits it for unsigned operands only)
   | .ite c a b t e => if c.holds (val s a) (val s b) then val s t else val s e
   | .newUnchecked _ e => val s e
   | .call f a => val (val s a) f
@@ -115,6 +122,8 @@ def ok (s : Int) : Expr → Prop
   | .wmul _ a b => ok s a ∧ ok s b
   | .shl t a k => ok s a ∧ k < t.bits
   | .shr t a k => ok s a ∧ k < t.bits
+  | .xorTop _ a => ok s a
+  | .andLow t a k => ok s a ∧ k ≤ t.bits ∧ 0 ≤ val s a
   | .ite c a b t e => ok s a ∧ ok s b ∧ (c.holds (val s a) (val s b) → ok s t) ∧ (¬ c.holds (val s a) (val s b) → ok s e)
   | .newUnchecked _ e => ok s e
   | .call f a => ok s a ∧ ok (val s a) f
@@ -127,6 +136,7 @@ def valid (s : Int) : Expr → Prop
   | .add _ a b | .sub _ a b | .mul _ a b | .wadd _ a b | .wsub _ a b | .wmul _ a b => valid s a ∧ valid s b
   | .neg _ a => valid s a
   | .shl _ a _ | .shr _ a _ => valid s a
+  | .xorTop _ a | .andLow _ a _ => valid s a
   | .ite c a b t e => valid s a ∧ valid s b ∧ (c.holds (val s a) (val s b) → valid s t) ∧ (¬ c.holds (val s a) (val s b) → valid s e)
   | .newUnchecked f e => valid s e ∧ f.inRange (val s e)
   | .call f a => valid s a ∧ valid (val s a) f
@@ -145,6 +155,8 @@ def okb (s : Int) : Expr → Bool
   | .wmul _ a b => okb s a && okb s b
   | .shl t a k => okb s a && decide (k < t.bits)
   | .shr t a k => okb s a && decide (k < t.bits)
+  | .xorTop _ a => okb s a
+  | .andLow t a k => okb s a && decide (k ≤ t.bits) && decide (0 ≤ val s a)
   | .ite c a b t e => okb s a && okb s b && (if c.holds (val s a) (val s b) then okb s t else okb s e)
   | .newUnchecked _ e => okb s e
   | .call f a => okb s a && okb (val s a) f
@@ -156,6 +168,7 @@ theorem okb_iff (s : Int) (e : Expr) : okb s e = true ↔ ok s e := by
     by_cases h : c.holds (val s a) (val s b) <;> simp [h, iht, ihe, and_assoc]
   | shl t a k ih => simp only [okb, ok, Bool.and_eq_true, ih, decide_eq_true_eq]
   | shr t a k ih => simp only [okb, ok, Bool.and_eq_true, ih, decide_eq_true_eq]
+  | andLow t a k ih => simp only [okb, ok, Bool.and_eq_true, ih, decide_eq_true_eq, and_assoc]
   | _ => simp_all [okb, ok, and_assoc]
 
 /-- executable twin of `valid` -/
@@ -166,6 +179,7 @@ def validb (s : Int) : Expr → Bool
   | .add _ a b | .sub _ a b | .mul _ a b | .wadd _ a b | .wsub _ a b | .wmul _ a b => validb s a && validb s b
   | .neg _ a => validb s a
   | .shl _ a _ | .shr _ a _ => validb s a
+  | .xorTop _ a | .andLow _ a _ => validb s a
   | .ite c a b t e => validb s a && validb s b && (if c.holds (val s a) (val s b) then validb s t else validb s e)
   | .newUnchecked f e => validb s e && decide (f.inRange (val s e))
   | .call f a => validb s a && validb (val s a) f
